@@ -228,6 +228,8 @@ var mutants = []Mutant{
 	{"C09", "date-lost-to-strip", "internal/responsestorerer.go", [][2]string{{"\tFixDateHeader(resp.Header, respTime)\n", ""}}, "C09.17", "D84"},
 	{"C16", "late-304-merged", "roundtripper.go", [][2]string{{"if resp.StatusCode == http.StatusNotModified && !sentValidatorsOf(req, stored.Data.Header) {", "if false {"}}, "C16.15", "D85"},
 	{"C08", "late-304-compares-nothing", "helpers.go", [][2]string{{"\treturn req.Header.Get(\"If-None-Match\") == storedHdr.Get(\"ETag\") &&\n\t\treq.Header.Get(\"If-Modified-Since\") == storedHdr.Get(\"Last-Modified\")", "\treturn req != nil && storedHdr != nil"}}, "C08.13", "D85: the comparison replaced by a nil test"},
+	{"C02", "strip-by-map-key-trailer-by-name", "roundtripper.go", [][2]string{{"\t\t\tstored.Data.Header.Del(field)\n\t\t\tstored.Data.Trailer.Del(field) // a field sent as a trailer is replayed as one\n\t\t}\n\t}\n\tinternal.SetAgeHeader(stored.Data, r.clock, freshness.Age)\n\tmisc :=", "\t\t\tdelete(stored.Data.Header, field)\n\t\t\tstored.Data.Trailer.Del(field) // a field sent as a trailer is replayed as one\n\t\t}\n\t}\n\tinternal.SetAgeHeader(stored.Data, r.clock, freshness.Age)\n\tmisc :="}}, "C02.4", "the header section is stripped by map key (as spelled) while the trailer is stripped canonically"},
+	{"C12", "strip-by-map-key-trailer-by-name", "roundtripper.go", [][2]string{{"\t\t\tstored.Data.Header.Del(field)\n\t\t\tstored.Data.Trailer.Del(field) // a field sent as a trailer is replayed as one\n\t\t}\n\t}\n\tinternal.SetAgeHeader(stored.Data, r.clock, freshness.Age)\n\tmisc :=", "\t\t\tdelete(stored.Data.Header, field)\n\t\t\tstored.Data.Trailer.Del(field) // a field sent as a trailer is replayed as one\n\t\t}\n\t}\n\tinternal.SetAgeHeader(stored.Data, r.clock, freshness.Age)\n\tmisc :="}}, "C12.17", "the header section is stripped by map key (as spelled) while the trailer is stripped canonically"},
 	{"C01", "max-stale-zero-is-unlimited", "internal/freshness.go", [][2]string{{"\t\tif reqMaxStaleStr == \"\" {\n\t\t\tmaxStale = maxDuration // accept any staleness\n\t\t} else if reqMaxStale, valid := reqMaxStaleStr.Value(); valid && reqMaxStale >= 0 {\n\t\t\tmaxStale = reqMaxStale\n\t\t}\n", "\t\treqMaxStale, _ := reqMaxStaleStr.Value()\n\t\tmaxStale = cmp.Or(max(reqMaxStale, 0), maxDuration)\n"}}, "C01.24", "wave 7"},
 	{"C03", "port-zeros-trimmed", "internal/helpers.go", [][2]string{{"\t\thost, port = host[:colon], host[colon+1:]\n", "\t\thost, port = host[:colon], strings.TrimLeft(host[colon+1:], \"0\")\n"}}, "C03.13", "wave 7"},
 	{"C04", "credentials-cut-at-second-blank", "internal/normalization.go", [][2]string{{"\t\tparts := strings.SplitN(value, \" \", 2)\n\t\tif len(parts) == 2 {", "\t\tparts := strings.Fields(value)\n\t\tif len(parts) >= 2 {"}}, "C04.18", "wave 7"},
